@@ -51,8 +51,44 @@ def r_shape(ctx) -> RuleResult:
         res.fail(Finding("R-SHAPE", ser.module.rel, ser.qualname, f"witness: {w}",
                          f"serialize_molecule can return the token string `{w}`, which the published grammar rejects{why}",
                          line=ser.node.lineno, extra={"witness": list(wit), "shape": s[:400]}))
+    ctx.cache["shape_emissions"] = I.emissions
     res.counts = {"product_states": states, "shape_pieces": len(shape.p), "element_symbols": len(symbols)}
     res.notes = I.notes[:6] + [f"attribute value holes: INT≥{value_lo}" if value_lo else "attribute value holes unbounded (R-ZERO reports)"]
     res.trusted = ["every producer of element_symbol indexes ELEMENT_ATTRS with it (R-SIBKEYS, parser _add_atoms), so Counter keys ⊆ the table's symbols",
                    "labels are 0..n-1 after the final relabel (R-BIJ, R-CODEC)"]
+    return res
+
+
+@rule("R-LAYOUT")
+def r_layout(ctx) -> RuleResult:
+    """canonical layout clauses that the grammar does not express: tuples in ascending order, a < b inside a tuple,
+    attribute blocks in ascending index order"""
+    res = RuleResult("R-LAYOUT", "bond tuples are emitted from an ascending-sorted sequence of ascending-sorted pairs; attribute blocks from the ascending-sorted node list")
+    from ..check import run_rules
+    sh = run_rules(ctx, ["R-SHAPE"])[0]
+    if sh.error:
+        raise AnalysisError(f"R-LAYOUT needs the shape interpretation: {sh.error}")
+    em = ctx.cache.get("shape_emissions", [])
+    seen = set()
+    kinds = set()
+    for e in em:
+        fi, node = e["fi"], e["node"]
+        key = (fi.fq, getattr(node, "lineno", 0), e["what"])
+        if key in seen:
+            continue
+        seen.add(key)
+        kinds.add(e["what"])
+        ok = bool(e["asc"]) and (e["pair_asc"] is not False if e["what"] == "edges" else True) and (e["pair_asc"] is True if e["what"] == "edges" else True)
+        from ..model import short, norm
+        res.inst(fi.fq, f"{e['what']} emitted by `{short(node, 70)}`", "ok" if ok else "fail",
+                 detail=f"sequence ascending: {e['asc']}" + (f", endpoints ascending: {e['pair_asc']}" if e["what"] == "edges" else ""))
+        if not ok:
+            if not e["asc"]:
+                msg = ("bond tuples" if e["what"] == "edges" else "attribute blocks") + " are not emitted in ascending order (the sequence is not the result of a plain sorted())"
+            else:
+                msg = "the two endpoints of a tuple are not emitted smaller-first (the pair is not the result of a plain sorted())"
+            res.fail(Finding("R-LAYOUT", fi.module.rel, fi.qualname, norm(node), msg, line=getattr(node, "lineno", None)))
+    if not {"edges", "nodes"} <= kinds:
+        raise AnalysisError(f"R-LAYOUT: emission of {sorted({'edges', 'nodes'} - kinds)} not seen in the serializer")
+    res.trusted = ["sorted() without key/reverse returns ascending order; tuples of ints compare lexicographically"]
     return res
